@@ -50,7 +50,7 @@ def classify(text, gparam, dumpers):
     mo = re.match(r"^(.+)\.join\(%s\)$" % EACH, text)
     if mo:
         return 'JOIN:%s' % mo.group(1)
-    mo = re.match(r"^(.+) % ','\.join\(%s\)$" % EACH, text)
+    mo = re.match(r"^(.+) %% ','\.join\(%s\)$" % EACH, text)
     if mo:
         return 'WRAP:%s' % mo.group(1)
     return None
